@@ -20,17 +20,22 @@ from harness.props import c01 as C01
 RULE = ('signed Interests/Data with every shipped signer (digest, HMAC, RSA-2048, ECDSA P-256/384/521, Ed25519, null) and '
         'random parameters; mutants of each wire: byte substitutions at every position (3 values per position quick / all 255 '
         'thorough on a subset), every truncation, TLV-level edits (delete / duplicate / swap / insert unknown critical and '
-        'non-critical element), the value of every top-level element cut short or extended with all Lengths fixed up. non-trivial = a mutant that still parses or the original; distinct by wire hash')
+        'non-critical element), the value of every top-level element cut short or extended with all Lengths fixed up.  Verifiers of a key: the verify function, the shipped checker object, and the compositions union_checker(digest checker, checker) / (checker, digest checker) / (checker) -- a verifier that raises has not accepted. non-trivial = a mutant that still parses or the original; distinct by wire hash')
 ASSUMPTIONS = ['unforgeability of the signature schemes / collision resistance of SHA-256 are hypotheses (C02_tamper_rejected); '
                'the run checks them empirically against pycryptodome for the generated mutants']
 
 
+_LOOP = None
+
+
 def run_coro(c):
-    try:
-        c.send(None)
-    except StopIteration as e:
-        return e.value
-    raise RuntimeError('coroutine did not finish synchronously')
+    """run a validator coroutine to completion; validators may legitimately suspend (gather, sleep(0), fetches), so a
+    private event loop drives them"""
+    global _LOOP
+    if _LOOP is None or _LOOP.is_closed():
+        import asyncio
+        _LOOP = asyncio.new_event_loop()
+    return _LOOP.run_until_complete(c)
 
 
 def opt(ans):
@@ -122,7 +127,26 @@ def check_packet(ctx, M, kind, wire, rec, verify, label, mutate=True):
                 r2 = False
             if r2 and not r:
                 ctx.stat('verdict.checker-accepts-what-verify-rejects')
-            return (r or r2, r and r2)
+            # ... and so is every COMPOSITION the library offers of that checker with the digest checker
+            # (union_checker: all must approve; a component that raises has not approved)
+            cu = getattr(ck, '_c02_union', None)
+            if cu is None:
+                from ndn.security.validator.digest_validator import union_checker
+                cu = (union_checker(sha256_digest_checker, ck), union_checker(ck, sha256_digest_checker), union_checker(ck))
+                try:
+                    ck._c02_union = cu
+                except Exception:   # noqa
+                    pass
+            r3any, r3all = False, True
+            for u in cu:
+                try:
+                    x = bool(run_coro(u(name, ptrs)))
+                except Exception:   # noqa
+                    x = False
+                r3any, r3all = r3any or x, r3all and x
+            if r3any and not (r or r2):
+                ctx.stat('verdict.union-accepts-what-its-parts-reject')
+            return (r or r2 or r3any, r and r2 and r3all)
         if label.startswith('digest'):
             if ptrs.signature_info.signature_type != 0:
                 return None      # not a DigestSha256 packet any more: the digest checker is not its verifier
